@@ -90,6 +90,11 @@ CHECKS = {
   text="Props/C06.v: every copy route (copy-constructors, evolve, pickle, deepcopy, concatenate, join, ensemble-from-list, ensemble copy; 70 regenerated (class, route) rows) yields an object equal to its source on all fields both classes have, with parents re-pointed, sharing no mutable container (C06_table_ok by kernel computation on the regenerated table; C06_copy_faithful_independent / C06_row_sound for every heap and source); disjoint reach implies the frame rule: any history of mutations through one side leaves the other side's observation unchanged (C06_mutation_frame, C06_disjoint_reach_frame, C06_copy_then_any_history, C06_menu_edits_confined). 1664 (thorough 9984) (class, route) x side x mutation cases compare the whole heap and both observations before/after inside Coq; an oracle checks faithfulness field by field and aliasing with `is` / np.shares_memory.",
   note="Trusted: Coq kernel+vm_compute; harness/c06.py (alias classification, heap re-reading by identity). Lone Atom/Bond routes by table and oracle only; derived molecules (concatenate/join/ensemble-from-list) via a synthetic union object; values inside attrib dicts not followed; pickle/copy/attrs/numpy copying executed, not modelled; uniformity assumption (a route's alias row does not depend on the source) checked by every H case. Substructure and constructors adopting an existing atom list (copy_atoms=False by design) out of scope. 8 fix commits. No axioms.",
   ref="7/C06"),
+ "C19": dict(
+  technique="Coq proofs (structural induction over nested maps; floor lemmas over Q; R for the sqrt kernel) about one field-parametric kernel model and a rational grid model, tied to /repo by differential correspondence evaluated by the kernel (tie H) incl. a per-run rebuild of the C++ source against a pybind11 stand-in",
+  text="Props/C19.v: cdist22/cdist32 return for ALL lengths (0 included) shape (L1,L2)/(X,L1,L2) with entry = sum_k (a_ik-b_jk)^2, resp. its square root (C19_kernel22/32, any ND: C19_euclidean2_any_dim); rectangular_grid: count nx*ny*nz, Cartesian product of the axes, NoDup, order, spacing, centred with 0<=o<s/2, contained in the padded box (C19_grid_*); nearest_atom_index = -1 iff every atom is beyond the cut-off, else an atom at minimal distance (C19_nearest); prune soundness + (1+eps) band under the KD-tree query contract (C19_prune_partial); aso/aeif = (weighted) conformer average of the vdW-union indicator (times the nearest atom's charge) (C19_aso, C19_aeif, C19_aeif_value). Every run rebuilds molli_xt/distance.cpp with g++ against tools/pybind11_shim and drives every registered kernel, drives the shipped extension with strided/transposed/Fortran/reversed/int/mixed inputs and 0-length axes (exact equality on dyadic inputs), and ~150 (thorough ~1500) grids/ensembles; all observations are judged by Model.Dist.check / Model.Grid.gcheck inside Coq.",
+  note="PARTIAL: IEEE rounding only tolerance-checked (grid points within 2e-3 in d^2 of a sphere surface and a 1e-9 band at the cut-off are left out, as the property says); scipy KDTree external (its answers are checked against the spec in Coq; prune theorem under hypotheses); sqrt via its specification. Trusted: Coq kernel+vm_compute, harness/c19.py, tools/pybind11_shim + g++, CPython/numpy/scipy. Axioms: stdlib Reals (sig_forall_dec, sig_not_dec, functional_extensionality_dep) for the R kernel theorems; grid theorems closed. Fix 1e05f0a (max_dist ignored for plain geometries). Known findings: float64 non-contiguous input computed in float32; last axis length not checked.",
+  ref="7/C19"),
 }
 
 PENDING = {
